@@ -420,6 +420,22 @@ pub enum Mode {
     Perturb { row: u16, col: u16, delta: u64 },
     /// every main cell drawn from the value distribution
     Random,
+    /// two cooperating scalar cells: cell (row, col1) += delta and cell (row + next2, col2) +=
+    /// m * delta (a single-cell change that the constraints notice can be compensated by a
+    /// second one when a constraint only looks at a combination of cells)
+    CoupleS { row: u16, col1: u16, col2: u16, next2: bool, m: MSel, delta: u64 },
+    /// the same on extension-field cells (groups of D columns): X += delta, Y += M * delta with
+    /// the product taken in the true extension field
+    CoupleE { row: u16, x: u16, y: u16, next2: bool, m: MSel, delta: u64, single_coeff: bool },
+}
+
+/// Multiplier of the compensating change.
+#[derive(Clone, Debug, Serialize, Deserialize, Hash, PartialEq)]
+pub enum MSel {
+    One,
+    NegOne,
+    /// value of a cell of the valid table: row offset (-1, 0, +1 as 0, 1, 2) and cell index
+    Cell { dr: u8, cell: u16, neg: bool },
 }
 
 #[derive(Clone, Debug, Serialize, Deserialize, Hash)]
@@ -870,6 +886,78 @@ where
                 }
             }
         }
+        Mode::CoupleS { row, col1, col2, next2, m, delta } => {
+            mode_name = "couple-scalar";
+            let valid = main.clone();
+            let r = *row as usize % h;
+            let w = lay.width();
+            let (c1, c2) = (*col1 as usize % w, *col2 as usize % w);
+            let r2 = if *next2 { (r + 1) % h } else { r };
+            if (r, c1) != (r2, c2) {
+                let dl = nonzero_delta::<C::F>(*delta);
+                let mv = match m {
+                    MSel::One => C::F::ONE,
+                    MSel::NegOne => C::F::NEG_ONE,
+                    MSel::Cell { dr, cell, neg } => {
+                        let rr = (r + h + (*dr as usize % 3) - 1) % h;
+                        let v = valid[rr][*cell as usize % w];
+                        if *neg { C::F::ZERO - v } else { v }
+                    }
+                };
+                main[r][c1] += dl;
+                main[r2][c2] += mv * dl;
+            }
+            let (lane, opn, j) = lay.label(c1);
+            let (_, opn2, j2) = lay.label(c2);
+            let tk = if lane == "x" { kinds[r][0] } else { kinds[r][lane.parse::<usize>().unwrap()] };
+            let what = format!("{opn}{j}+{opn2}{j2}");
+            key = hash_of(&(tk, case.cfg % NCFG as u8, lay.kmax, &what, *next2, m));
+            target = Some((tk, format!("couple:{}", if opn == opn2 { "same-operand" } else { "two-operands" }), j));
+        }
+        Mode::CoupleE { row, x, y, next2, m, delta, single_coeff } => {
+            mode_name = "couple-ext";
+            let valid = main.clone();
+            let d = lay.d;
+            let r = *row as usize % h;
+            let ne = lay.width() / d;
+            let (x, y) = (*x as usize % ne, *y as usize % ne);
+            let r2 = if *next2 { (r + 1) % h } else { r };
+            if (r, x) != (r2, y) {
+                let mut g = Sm(*delta ^ 0x5EED_C0DE);
+                let mut dv: Vec<C::F> = g.vec::<C::F>(d, 0);
+                if *single_coeff {
+                    let keep = g.below(d as u64) as usize;
+                    for (i, v) in dv.iter_mut().enumerate() {
+                        if i != keep {
+                            *v = C::F::ZERO;
+                        }
+                    }
+                }
+                if dv.iter().all(|v| *v == C::F::ZERO) {
+                    dv[0] = C::F::ONE;
+                }
+                let de = to_e::<C>(&dv);
+                let me = match m {
+                    MSel::One => C::E::ONE,
+                    MSel::NegOne => C::E::ZERO - C::E::ONE,
+                    MSel::Cell { dr, cell, neg } => {
+                        let rr = (r + h + (*dr as usize % 3) - 1) % h;
+                        let c0 = (*cell as usize % ne) * d;
+                        let v = to_e::<C>(&valid[rr][c0..c0 + d]);
+                        if *neg { C::E::ZERO - v } else { v }
+                    }
+                };
+                let xv = to_e::<C>(&main[r][x * d..(x + 1) * d]) + de;
+                main[r][x * d..(x + 1) * d].copy_from_slice(&from_e::<C>(&xv));
+                let yv = to_e::<C>(&main[r2][y * d..(y + 1) * d]) + me * de;
+                main[r2][y * d..(y + 1) * d].copy_from_slice(&from_e::<C>(&yv));
+            }
+            let (lane, opn, _) = lay.label(x * d);
+            let (_, opn2, _) = lay.label(y * d);
+            let tk = if lane == "x" { kinds[r][0] } else { kinds[r][lane.parse::<usize>().unwrap()] };
+            key = hash_of(&(tk, case.cfg % NCFG as u8, lay.kmax, &opn, &opn2, *next2, m));
+            target = Some((tk, format!("couple-ext:{opn}+{opn2}"), 0));
+        }
         Mode::Perturb { row, col, delta } => {
             mode_name = "perturb";
             let r = *row as usize % h;
@@ -1022,12 +1110,24 @@ fn kind_strategy() -> impl Strategy<Value = Kind> {
     ]
 }
 
+fn msel_strategy() -> impl Strategy<Value = MSel> {
+    prop_oneof![
+        2 => Just(MSel::One),
+        3 => Just(MSel::NegOne),
+        5 => (0u8..3, any::<u16>(), any::<bool>()).prop_map(|(dr, cell, neg)| MSel::Cell { dr, cell, neg }),
+    ]
+}
+
 pub fn alu_strategy() -> impl Strategy<Value = AluCase> {
     let mode = prop_oneof![
         2 => Just(Mode::Valid),
         5 => (any::<u16>(), any::<u16>(), prop_oneof![Just(0u64), any::<u64>()])
             .prop_map(|(row, col, delta)| Mode::Perturb { row, col, delta }),
         2 => Just(Mode::Random),
+        3 => (any::<u16>(), any::<u16>(), any::<u16>(), any::<bool>(), msel_strategy(), prop_oneof![Just(0u64), any::<u64>()])
+            .prop_map(|(row, col1, col2, next2, m, delta)| Mode::CoupleS { row, col1, col2, next2, m, delta }),
+        3 => (any::<u16>(), any::<u16>(), any::<u16>(), any::<bool>(), msel_strategy(), any::<u64>(), any::<bool>())
+            .prop_map(|(row, x, y, next2, m, delta, single_coeff)| Mode::CoupleE { row, x, y, next2, m, delta, single_coeff }),
     ];
     (
         0u8..NCFG as u8,
@@ -1125,6 +1225,70 @@ pub fn alu_enumeration(seed: u64) -> Vec<AluCase> {
                     if kind.is_horner() {
                         cells.extend((lay.x()..lay.width()).map(|c| (trow, c)));
                         cells.extend((lay.op(0, 3)..lay.op(0, 3) + d).map(|c| (trow - 1, c)));
+                    }
+                    // cooperating pairs (a): two coefficients of one operand of the target slot,
+                    // delta and -delta (a constraint that only sees a sum of coefficients)
+                    let mut salt = 10_000u64;
+                    for o in 0..4 {
+                        for i in 0..d {
+                            for j in (i + 1)..d {
+                                salt += 1;
+                                out.push(base(
+                                    Mode::CoupleS {
+                                        row: trow as u16,
+                                        col1: (lay.op(lane, o) + i) as u16,
+                                        col2: (lay.op(lane, o) + j) as u16,
+                                        next2: false,
+                                        m: MSel::NegOne,
+                                        delta: hash_of(&(seed, salt)),
+                                    },
+                                    salt,
+                                ));
+                            }
+                        }
+                    }
+                    // cooperating pairs (b), Horner rows with one lane: an auxiliary extension cell of
+                    // the row changes by delta and an output (this row's / the next row's out, or
+                    // the first intermediate) by M * delta, M in {+-1, +-previous out, +-b, +-b^2}
+                    if kind.is_horner() && lanes == 1 {
+                        let ne = lay.width() / d;
+                        let aux: Vec<usize> = (lay.x() / d..ne).collect();
+                        let outs: Vec<(usize, bool)> = {
+                            let mut v = vec![(lay.op(0, 3) / d, false), (lay.op(0, 3) / d, true)];
+                            if lay.num_int() > 0 {
+                                v.push((lay.int(0) / d, false));
+                                v.push((lay.int(0) / d, true));
+                            }
+                            v
+                        };
+                        let mults: Vec<MSel> = {
+                            let mut v = vec![MSel::One, MSel::NegOne];
+                            for (dr, cell) in [(0u8, lay.op(0, 3) / d), (1, lay.op(0, 1) / d), (1, lay.bsq() / d)] {
+                                for neg in [false, true] {
+                                    v.push(MSel::Cell { dr, cell: cell as u16, neg });
+                                }
+                            }
+                            v
+                        };
+                        for &x in &aux {
+                            for &(y, next2) in &outs {
+                                for m in &mults {
+                                    salt += 1;
+                                    out.push(base(
+                                        Mode::CoupleE {
+                                            row: trow as u16,
+                                            x: x as u16,
+                                            y: y as u16,
+                                            next2,
+                                            m: m.clone(),
+                                            delta: hash_of(&(seed, salt)),
+                                            single_coeff: salt % 2 == 0,
+                                        },
+                                        salt,
+                                    ));
+                                }
+                            }
+                        }
                     }
                     for (ci, (r, col)) in cells.into_iter().enumerate() {
                         out.push(base(
@@ -1645,6 +1809,8 @@ where
         Mode::Valid => "valid",
         Mode::Perturb { .. } => "perturb",
         Mode::Random => "random",
+        // the witness-table strategy never generates coupled modes
+        Mode::CoupleS { .. } | Mode::CoupleE { .. } => "valid",
     };
     let mut classes = vec![
         format!("table:{}", WIT_NAMES[table]),
@@ -1683,7 +1849,7 @@ where
     }
     let mut key = hash_of(case);
     match &case.mode {
-        Mode::Valid => {}
+        Mode::Valid | Mode::CoupleS { .. } | Mode::CoupleE { .. } => {}
         Mode::Random => {
             let mut g2 = Sm(case.seed ^ 0x1234_5678_9ABC_DEF0);
             for r in 0..h {
